@@ -44,8 +44,8 @@ func c15(r *Report) {
 					continue
 				}
 				switch calleeName(c) {
-				case "io/ioutil.ReadAll", "io.ReadAll", "io.Copy", "(io.Closer).Close":
-					continue
+				case "io/ioutil.ReadAll", "io.ReadAll", "io.Copy", "(*bytes.Buffer).ReadFrom", "(io.Closer).Close":
+					continue // judged below
 				}
 				var ops []ssa.Value
 				ops = append(ops, c.Call.Args...)
@@ -67,17 +67,19 @@ func c15(r *Report) {
 					}
 					if direct && fnName(f) != "(*M/marbl.bodyLogger).Read" {
 						r.Sites++
-						r.Fail("flow", fmt.Sprintf("%s: message body handed to %s", fnName(f), nameOrDyn(c)), "the message body is drained by something other than ReadAll (whose fresh result is re-attached): the bytes put back are not provably the bytes read, or are shared scratch storage", nil, c.Pos())
+						r.Fail("flow", fmt.Sprintf("%s: message body handed to %s", fnName(f), nameOrDyn(c)), "the message body is drained by something other than ReadAll or a copy into a buffer of its own: the bytes put back are not provably the bytes read", nil, c.Pos())
 					}
 				}
 			}
 		}
 		for _, f := range w.Funcs(loggerPkgs...) {
-			for _, c := range plainCalls(f, "io/ioutil.ReadAll", "io.ReadAll", "io.Copy") {
+			for _, c := range plainCalls(f, "io/ioutil.ReadAll", "io.ReadAll", "io.Copy", "(*bytes.Buffer).ReadFrom") {
 				// source derives from a message's Body field?
 				srcArg := c.Call.Args[0]
-				if calleeName(c) == "io.Copy" {
+				var into ssa.Value // the buffer the body is copied into (nil for ReadAll)
+				if n := calleeName(c); n == "io.Copy" || n == "(*bytes.Buffer).ReadFrom" {
 					srcArg = c.Call.Args[1]
+					into = unwrapIface(c.Call.Args[0])
 				}
 				var msg ssa.Value
 				for v := range w.backSlice(srcArg, flowOpt{}) {
@@ -91,15 +93,35 @@ func c15(r *Report) {
 				r.Touch(f)
 				r.Sites++
 				key := fmt.Sprintf("%s: body consumed by %s#%d is replaced with the same bytes", fnName(f), calleeName(c), ordinalAny(f, c))
-				if calleeName(c) == "io.Copy" {
-					r.Fail("flow", key, "the body is drained with io.Copy; the bytes are not retained for re-attachment", nil, c.Pos())
-					continue
+				if into != nil {
+					// the copy must go into a buffer that belongs to this call alone
+					own := false
+					switch x := into.(type) {
+					case *ssa.Alloc:
+						own = x.Type().String() == "*bytes.Buffer"
+					case *ssa.Call:
+						own = calleeName(x) == "bytes.NewBuffer" && isNilConst(x.Call.Args[0])
+					}
+					if !own {
+						r.Fail("flow", key, "the body is drained into a writer that is not a buffer created for this message (a pooled or shared buffer, or something that does not retain the bytes): what is re-attached can be overwritten while the message is still being forwarded", nil, c.Pos())
+						continue
+					}
 				}
 				data := resultOf(c, 0)
 				tests := errTests(c)
 				if len(tests) != 1 || data == nil {
-					r.Fail("path", key, "ReadAll's error is not tested exactly once", nil, c.Pos())
+					r.Fail("path", key, "the error of draining the body is not tested exactly once", nil, c.Pos())
 					continue
+				}
+				isData := func(v ssa.Value) bool {
+					if into == nil {
+						return v == data
+					}
+					if v == into {
+						return true
+					}
+					bc, ok := v.(*ssa.Call)
+					return ok && calleeName(bc) == "(*bytes.Buffer).Bytes" && bc.Call.Args[0] == into
 				}
 				g := G(f)
 				isPutBack := func(i ssa.Instruction) bool {
@@ -108,7 +130,7 @@ func c15(r *Report) {
 						return false
 					}
 					sl := w.backSlice(st.Val, flowOpt{Through: map[string]bool{"io/ioutil.NopCloser": true, "io.NopCloser": true, "bytes.NewReader": true, "bytes.NewBuffer": true}})
-					if !sl[data] {
+					if !anyIn(sl, isData) {
 						return false
 					}
 					// exactly the bytes read: no sub-slice, no re-encoding on the way
@@ -124,7 +146,7 @@ func c15(r *Report) {
 				if p != nil {
 					r.Fail("path", key, "a successful path returns without Body = NopCloser(NewReader(<exactly the bytes read>)): the forwarded message loses or changes its body", witness(w, p), c.Pos())
 				} else {
-					r.Hold("path", key, "every successful path re-attaches a reader over the very slice ReadAll returned", c.Pos())
+					r.Hold("path", key, "every successful path re-attaches a reader over the very bytes that were read", c.Pos())
 				}
 			}
 		}
